@@ -4,8 +4,8 @@ package main
 // seeded changes (DESIGN.md §10.5).
 func init() {
 	headers := [][2]string{{"io/seqio/fasta", "(*Reader).header"}, {"io/seqio/fastq", "(*Reader).readHeader"}}
-	addRule("C01", "verbatimdesc", 6, func(c *Ctx, r string) { ruleVerbatimDesc(c, r, headers) })
-	addRule("C04", "verbatimdesc", 6, func(c *Ctx, r string) { ruleVerbatimDesc(c, r, headers) })
+	addRule("C01", "verbatimdesc", 2, func(c *Ctx, r string) { ruleVerbatimDesc(c, r, headers) })
+	addRule("C04", "verbatimdesc", 2, func(c *Ctx, r string) { ruleVerbatimDesc(c, r, headers) })
 	addRule("C02", "columnsparsed", 1, ruleColumnsParsed)
 	addRule("C02", "floatnarrow", 1, ruleFloatNarrow)
 	addRule("C03", "strconvonly", 2, func(c *Ctx, r string) { ruleStrconvOnly(c, r, "io/featio/bed", "io/featio/gff") })
@@ -13,37 +13,37 @@ func init() {
 		ruleLoopIdx(c, r, "io/featio/bed", "io/featio/gff", "io/seqio/fasta", "io/seqio/fastq")
 	})
 	appenders := [][2]string{{"seq/linear", "(*Seq).AppendLetters"}, {"seq/linear", "(*Seq).AppendQLetters"}, {"seq/linear", "(*QSeq).AppendLetters"}, {"seq/linear", "(*QSeq).AppendQLetters"}}
-	addRule("C04", "appendtail", 4, func(c *Ctx, r string) { ruleAppendTail(c, r, appenders) })
-	addRule("C01", "appendtail", 4, func(c *Ctx, r string) { ruleAppendTail(c, r, appenders) })
+	addRule("C04", "appendtail", 2, func(c *Ctx, r string) { ruleAppendTail(c, r, appenders) })
+	addRule("C01", "appendtail", 2, func(c *Ctx, r string) { ruleAppendTail(c, r, appenders) })
 	addRule("C04", "blankaftertrim", 1, ruleBlankAfterTrim)
 	addRule("C05", "offsetroundtrip", 2, func(c *Ctx, r string) { ruleOffsetRoundTrip(c, r, "seq/linear", "seq/alignment", "seq/multi") })
 	addRule("C07", "offsetroundtrip", 2, func(c *Ctx, r string) { ruleOffsetRoundTrip(c, r, "seq/linear", "seq/alignment", "seq/multi") })
 	addRule("C06", "joinearly", 1, ruleJoinEarly)
 	addRule("C06", "conformlinear", 1, ruleConformLinear)
-	addRule("C07", "ownoffset", 8, func(c *Ctx, r string) { ruleOwnOffset(c, r, "seq/linear", "seq/alignment") })
+	addRule("C07", "ownoffset", 2, func(c *Ctx, r string) { ruleOwnOffset(c, r, "seq/linear", "seq/alignment") })
 	cols := [][2]string{{"seq/multi", "(*Multi).Column"}, {"seq/multi", "(*Multi).ColumnQL"}}
 	addRule("C07", "rangepanic", 2, func(c *Ctx, r string) { ruleRangePanic(c, r, cols) })
 	var nws [][2]string
 	for _, a := range []string{"NW", "NWAffine", "SW", "SWAffine", "Fitted", "FittedAffine"} {
 		nws = append(nws, [2]string{"align", a + ".alignLetters"}, [2]string{"align", a + ".alignQLetters"})
 	}
-	addRule("C09", "lastblock", 12, func(c *Ctx, r string) { ruleLastBlock(c, r, nws) })
+	addRule("C09", "lastblock", 4, func(c *Ctx, r string) { ruleLastBlock(c, r, nws) })
 	addRule("C10", "foreignseq", 1, ruleForeignSeq)
-	addRule("C10", "queryreadonly", 6, func(c *Ctx, r string) {
+	addRule("C10", "queryreadonly", 2, func(c *Ctx, r string) {
 		ruleQueryReadOnly(c, r, map[string]bool{"Build": true, "buildKmerTable": true})
 	})
 	for _, id := range []string{"C11", "C13", "C14"} {
 		addRule(id, "freshdecode", 2, ruleFreshDecode)
 	}
-	addRule("C11", "lockset", 4, ruleMorassLockset)
+	addRule("C11", "lockset", 2, ruleMorassLockset)
 	addRule("C12", "poolnil", 2, rulePoolNil)
 	addRule("C14", "hitpushed", 1, ruleHitPushed)
 	addRule("C15", "codesign", 1, ruleCodeSign)
 	addRule("C15", "clipmid", 2, ruleClipMid)
-	addRule("C17", "nocache", 4, ruleNoCache)
+	addRule("C17", "nocache", 2, ruleNoCache)
 	addRule("C17", "pairingcomplete", 1, rulePairingComplete)
-	addRule("C18", "fillnobreak", 4, ruleFillNoBreak)
-	addRule("C18", "tableinit", 4, ruleTableInit)
+	addRule("C18", "fillnobreak", 2, ruleFillNoBreak)
+	addRule("C18", "tableinit", 2, ruleTableInit)
 	addRule("C19", "waitloop", 1, ruleWaitLoop)
 	addRule("C19", "chunkpositive", 1, ruleChunkPositive)
 	addRule("C20", "chainwalk", 1, ruleChainWalk)
@@ -77,10 +77,10 @@ func init() {
 }
 
 func init() {
-	addRule("C01", "bytecount/onerror", 10, func(c *Ctx, r string) {
+	addRule("C01", "bytecount/onerror", 3, func(c *Ctx, r string) {
 		ruleByteCountErr(c, "", r, "io/seqio/fasta", "io/seqio/fastq")
 	})
-	addRule("C02", "bytecount/onerror", 20, func(c *Ctx, r string) {
+	addRule("C02", "bytecount/onerror", 6, func(c *Ctx, r string) {
 		ruleByteCountErr(c, "", r, "io/featio/bed", "io/featio/gff")
 	})
 }
@@ -99,6 +99,6 @@ var seqSiblingExcept = map[string]string{
 
 func init() {
 	for _, id := range []string{"C05", "C06", "C07"} {
-		addRule(id, "siblingarith", 10, func(c *Ctx, r string) { ruleSiblingArith(c, r, seqSiblings, seqSiblingExcept) })
+		addRule(id, "siblingarith", 3, func(c *Ctx, r string) { ruleSiblingArith(c, r, seqSiblings, seqSiblingExcept) })
 	}
 }
